@@ -67,6 +67,20 @@ pub open spec fn same_kind(a: Val, b: Val) -> bool {
     (a is Empty && b is Empty) || (a is Boolean && b is Boolean) || (a is Int && b is Int) || (a is Float && b is Float) || (a is Str && b is Str)
 }
 
+// `>=` / `<=` of a bound's numeric type, as the exec comparison computes it (used by the closures' contracts)
+pub trait BoundOrd: Sized {
+    spec fn b_ge(self, o: Self) -> bool;
+    spec fn b_le(self, o: Self) -> bool;
+}
+impl BoundOrd for i64 {
+    open spec fn b_ge(self, o: i64) -> bool { self >= o }
+    open spec fn b_le(self, o: i64) -> bool { self <= o }
+}
+impl BoundOrd for f64 {
+    open spec fn b_ge(self, o: f64) -> bool { f64_ge(self, o) }
+    open spec fn b_le(self, o: f64) -> bool { f64_le(self, o) }
+}
+
 // "restrict a value to a numeric range": `in lo..hi` — "must be between lo and hi", `in 0..` is ">= 0",
 // `in ..100` is "<= 100": both bounds INCLUSIVE, an absent bound does not constrain. An int range admits
 // only Int values, a float range only Float values.
